@@ -1,9 +1,858 @@
-//! Ops of the layers above L0 (filled in as the model grows).
-use crate::exec::Exec;
+//! Ops of the layers above L0, executed on the real `akd` code: directory, tree, proofs,
+//! verification, symbolic adversary.  Text forms mirror `lean/AkdModel/Show.lean`; digests are
+//! printed as hex (the model prints terms, evaluated by `eval.rs`).
+use crate::exec::{Exec, Exp, Wv1};
+use crate::util::*;
+use akd::append_only_zks::{AzksParallelismConfig, InsertMode, DEFAULT_AZKS_KEY};
+use akd::configuration::Configuration;
+use akd::directory::Directory;
+use akd::ecvrf::{HardCodedAkdVRF, VRFKeyStorage};
+use akd::storage::manager::StorageManager;
+use akd::storage::memory::AsyncInMemoryDatabase;
+use akd::storage::types::DbRecord;
+use akd::storage::{Database, StorageUtil};
+use akd::tree_node::{TreeNode, TreeNodeType};
+use akd::verify::history::HistoryVerificationParams;
+use akd::{
+    AkdLabel, AkdValue, AppendOnlyProof, Azks, AzksElement, AzksValue, Direction, HistoryParams,
+    HistoryProof, LookupProof, MembershipProof, NodeLabel, NonMembershipProof, SiblingProof,
+    SingleAppendOnlyProof, UpdateProof, VerifyResult, VersionFreshness,
+};
+use std::collections::BTreeMap;
 
-#[derive(Default)]
-pub struct L1State {}
+type Db = AsyncInMemoryDatabase;
 
-pub fn step(_ex: &mut Exec, _toks: &[&str]) -> Option<String> {
+pub enum AnyDir {
+    W(Directory<Wv1, Db, HardCodedAkdVRF>),
+    E(Directory<Exp, Db, HardCodedAkdVRF>),
+}
+
+pub struct Inst {
+    pub cfg: String,
+    pub db: Db,
+    pub storage: StorageManager<Db>,
+    pub dir: AnyDir,
+    pub roots: BTreeMap<u64, [u8; 32]>,
+    /// leaves inserted through `azks.insert` (label -> (value, epoch)), for the C05 oracle
+    pub leaves: BTreeMap<NodeLabel, ([u8; 32], u64)>,
+    pub pk: Vec<u8>,
+}
+
+pub struct L1State {
+    pub rt: tokio::runtime::Runtime,
+    pub inst: Option<Inst>,
+    pub cache_mode: String,
+    pub parallelism: AzksParallelismConfig,
+}
+
+impl Default for L1State {
+    fn default() -> Self {
+        L1State {
+            rt: tokio::runtime::Builder::new_multi_thread()
+                .worker_threads(2)
+                .enable_all()
+                .build()
+                .unwrap(),
+            inst: None,
+            cache_mode: "none".into(),
+            parallelism: AzksParallelismConfig::disabled(),
+        }
+    }
+}
+
+macro_rules! with_cfg {
+    ($cfg:expr, $tc:ident => $body:expr) => {
+        match $cfg {
+            "wv1" => {
+                type $tc = Wv1;
+                $body
+            }
+            _ => {
+                type $tc = Exp;
+                $body
+            }
+        }
+    };
+}
+
+pub fn hex32(d: &[u8]) -> String {
+    hex_or_dash(d)
+}
+
+fn show_dir(d: Direction) -> &'static str {
+    match d {
+        Direction::Left => "L",
+        Direction::Right => "R",
+    }
+}
+
+fn show_sibling(s: &SiblingProof) -> String {
+    format!(
+        "{},{},{},{}",
+        show_label(&s.label),
+        show_label(&s.siblings[0].label),
+        hex32(&s.siblings[0].value.0),
+        show_dir(s.direction)
+    )
+}
+
+pub fn show_membership(p: &MembershipProof) -> String {
+    format!(
+        "M[{}|{}|{}]",
+        show_label(&p.label),
+        hex32(&p.hash_val.0),
+        p.sibling_proofs.iter().map(show_sibling).collect::<Vec<_>>().join(";")
+    )
+}
+
+pub fn show_nonmembership(p: &NonMembershipProof) -> String {
+    format!(
+        "N[{}|{}|{},{}|{},{}|{}]",
+        show_label(&p.label),
+        show_label(&p.longest_prefix),
+        show_label(&p.longest_prefix_children[0].label),
+        hex32(&p.longest_prefix_children[0].value.0),
+        show_label(&p.longest_prefix_children[1].label),
+        hex32(&p.longest_prefix_children[1].value.0),
+        show_membership(&p.longest_prefix_membership_proof)
+    )
+}
+
+fn show_element(e: &AzksElement) -> String {
+    format!("{}={}", show_label(&e.label), hex32(&e.value.0))
+}
+
+fn show_single(p: &SingleAppendOnlyProof) -> String {
+    let mut i: Vec<String> = p.inserted.iter().map(show_element).collect();
+    let mut u: Vec<String> = p.unchanged_nodes.iter().map(show_element).collect();
+    i.sort();
+    u.sort();
+    format!("I:{} U:{}", i.join(","), u.join(","))
+}
+
+pub fn show_append_only(p: &AppendOnlyProof) -> String {
+    format!(
+        "AP[{}|{}]",
+        p.proofs.iter().map(show_single).collect::<Vec<_>>().join(" / "),
+        show_nats(&p.epochs)
+    )
+}
+
+fn show_type(t: TreeNodeType) -> &'static str {
+    match t {
+        TreeNodeType::Leaf => "leaf",
+        TreeNodeType::Root => "root",
+        TreeNodeType::Interior => "int",
+    }
+}
+
+fn opt_label(l: &Option<NodeLabel>) -> String {
+    match l {
+        Some(l) => show_label(l),
+        None => "-".into(),
+    }
+}
+
+fn show_tree_node(n: &TreeNode) -> String {
+    format!(
+        "{} {} le={} md={} l={} r={} h={}",
+        show_label(&n.label),
+        show_type(n.node_type),
+        n.last_epoch,
+        n.min_descendant_epoch,
+        opt_label(&n.left_child),
+        opt_label(&n.right_child),
+        hex32(&n.hash.0)
+    )
+}
+
+fn show_result(r: &VerifyResult) -> String {
+    format!("({},{},{})", r.epoch, r.version, hex_or_dash(&r.value.0))
+}
+
+impl Inst {
+    pub async fn new(cfg: &str, cache_mode: &str, par: AzksParallelismConfig) -> Option<Inst> {
+        let db = Db::new();
+        Self::open(cfg, db, cache_mode, par).await
+    }
+
+    pub fn make_storage(db: &Db, cache_mode: &str) -> StorageManager<Db> {
+        use std::time::Duration;
+        match cache_mode {
+            "default" => StorageManager::new(db.clone(), None, None, None),
+            "1ms" => StorageManager::new(db.clone(), Some(Duration::from_millis(2)), None, Some(Duration::from_millis(2))),
+            "tiny" => StorageManager::new(db.clone(), Some(Duration::from_millis(50)), Some(300), Some(Duration::from_millis(2))),
+            _ => StorageManager::new_no_cache(db.clone()),
+        }
+    }
+
+    /// (re)open a directory object over an existing database
+    pub async fn open(cfg: &str, db: Db, cache_mode: &str, par: AzksParallelismConfig) -> Option<Inst> {
+        let storage = Self::make_storage(&db, cache_mode);
+        let vrf = HardCodedAkdVRF {};
+        let dir = match cfg {
+            "wv1" => AnyDir::W(Directory::<Wv1, _, _>::new(storage.clone(), vrf.clone(), par).await.ok()?),
+            "exp" => AnyDir::E(Directory::<Exp, _, _>::new(storage.clone(), vrf.clone(), par).await.ok()?),
+            _ => return None,
+        };
+        let pk = vrf.get_vrf_public_key().await.ok()?.as_bytes().to_vec();
+        let mut inst = Inst {
+            cfg: cfg.to_string(),
+            db,
+            storage,
+            dir,
+            roots: BTreeMap::new(),
+            leaves: BTreeMap::new(),
+            pk,
+        };
+        if let Some((e, h)) = inst.epoch_hash().await {
+            inst.roots.insert(e, h);
+        }
+        Some(inst)
+    }
+
+    pub async fn epoch_hash(&self) -> Option<(u64, [u8; 32])> {
+        let r = match &self.dir {
+            AnyDir::W(d) => d.get_epoch_hash().await,
+            AnyDir::E(d) => d.get_epoch_hash().await,
+        };
+        r.ok().map(|eh| (eh.0, eh.1))
+    }
+
+    pub async fn azks(&self) -> Option<Azks> {
+        match self.storage.get::<Azks>(&DEFAULT_AZKS_KEY).await {
+            Ok(DbRecord::Azks(a)) => Some(a),
+            _ => None,
+        }
+    }
+
+    pub async fn root_value(&self) -> Option<[u8; 32]> {
+        let a = self.azks().await?;
+        let recs = self.db.batch_get_all_direct().await.ok()?;
+        for r in recs {
+            if let DbRecord::TreeNode(t) = r {
+                if t.label == NodeLabel::root() {
+                    let n = akd::tree_node::verif_determine_node_to_get(&t, a.latest_epoch).ok()?;
+                    return Some(n.hash.0);
+                }
+            }
+        }
+        None
+    }
+
+    pub async fn lookup(&self, u: &AkdLabel) -> Option<(LookupProof, u64, [u8; 32])> {
+        let r = match &self.dir {
+            AnyDir::W(d) => d.lookup(u.clone()).await,
+            AnyDir::E(d) => d.lookup(u.clone()).await,
+        };
+        r.ok().map(|(p, eh)| (p, eh.0, eh.1))
+    }
+
+    pub async fn history(&self, u: &AkdLabel, p: HistoryParams) -> Option<(HistoryProof, u64, [u8; 32])> {
+        let r = match &self.dir {
+            AnyDir::W(d) => d.key_history(u, p).await,
+            AnyDir::E(d) => d.key_history(u, p).await,
+        };
+        r.ok().map(|(p, eh)| (p, eh.0, eh.1))
+    }
+
+    pub async fn audit(&self, s: u64, e: u64) -> Option<AppendOnlyProof> {
+        let r = match &self.dir {
+            AnyDir::W(d) => d.audit(s, e).await,
+            AnyDir::E(d) => d.audit(s, e).await,
+        };
+        r.ok()
+    }
+
+    pub fn verify_lookup(&self, root: [u8; 32], ep: u64, u: &AkdLabel, p: LookupProof) -> Result<VerifyResult, String> {
+        with_cfg!(self.cfg.as_str(), TC => akd::verify::lookup_verify::<TC>(&self.pk, root, ep, u.clone(), p).map_err(|e| e.to_string()))
+    }
+
+    pub fn verify_history(
+        &self,
+        root: [u8; 32],
+        ep: u64,
+        u: &AkdLabel,
+        p: HistoryProof,
+        params: HistoryVerificationParams,
+    ) -> Result<Vec<VerifyResult>, String> {
+        with_cfg!(self.cfg.as_str(), TC => akd::verify::key_history_verify::<TC>(&self.pk, root, ep, u.clone(), p, params).map_err(|e| e.to_string()))
+    }
+
+    pub async fn verify_audit(&self, hashes: Vec<[u8; 32]>, p: AppendOnlyProof) -> Result<(), String> {
+        with_cfg!(self.cfg.as_str(), TC => akd::auditor::audit_verify::<TC>(hashes, p).await.map_err(|e| e.to_string()))
+    }
+
+    pub fn verify_mem(&self, root: [u8; 32], p: &MembershipProof) -> bool {
+        with_cfg!(self.cfg.as_str(), TC => akd::verify::base::verify_membership_for_tests_only::<TC>(root, p).is_ok())
+    }
+
+    pub fn verify_nonmem(&self, root: [u8; 32], p: &NonMembershipProof) -> bool {
+        with_cfg!(self.cfg.as_str(), TC => akd::verify::base::verify_nonmembership_for_tests_only::<TC>(root, p).is_ok())
+    }
+
+    pub async fn gen_mem(&self, l: NodeLabel) -> Option<MembershipProof> {
+        let a = self.azks().await?;
+        with_cfg!(self.cfg.as_str(), TC => a.get_membership_proof::<TC, _>(&self.storage, l).await.ok())
+    }
+
+    pub async fn gen_nonmem(&self, l: NodeLabel) -> Option<NonMembershipProof> {
+        let a = self.azks().await?;
+        with_cfg!(self.cfg.as_str(), TC => a.get_non_membership_proof::<TC, _>(&self.storage, l).await.ok())
+    }
+
+    pub fn empty_element(&self) -> AzksElement {
+        with_cfg!(self.cfg.as_str(), TC => AzksElement { label: TC::empty_label(), value: TC::empty_node_hash() })
+    }
+
+    pub async fn dump(&self) -> String {
+        let recs = self.db.batch_get_all_direct().await.unwrap_or_default();
+        let mut nodes = vec![];
+        let mut states = vec![];
+        let mut azks = "azks(-)".to_string();
+        for r in recs {
+            match r {
+                DbRecord::Azks(a) => azks = format!("azks({},{})", a.latest_epoch, a.num_nodes),
+                DbRecord::TreeNode(t) => {
+                    let prev = match &t.previous_node {
+                        Some(p) => format!("{{{}}}", show_tree_node(p)),
+                        None => "-".into(),
+                    };
+                    nodes.push(format!("{{{}}} prev={}", show_tree_node(&t.latest_node), prev));
+                }
+                DbRecord::ValueState(v) => states.push(format!(
+                    "{}@{} v{} {} {}",
+                    hex_or_dash(&v.username.0),
+                    v.epoch,
+                    v.version,
+                    show_label(&v.label),
+                    hex_or_dash(&v.value.0)
+                )),
+            }
+        }
+        nodes.sort();
+        states.sort();
+        format!("{} ## {} ## {}", azks, nodes.join(" ;; "), states.join(" ;; "))
+    }
+}
+
+pub fn vrf_ok(inst: &Inst, rt: &tokio::runtime::Runtime, bytes: &[u8], u: &AkdLabel, fresh: VersionFreshness, ver: u64) -> &'static str {
+    let vrf = HardCodedAkdVRF {};
+    let honest = with_cfg!(inst.cfg.as_str(), TC => rt.block_on(vrf.get_label_proof::<TC>(u, fresh, ver)));
+    match honest {
+        Ok(p) if p.to_bytes().as_slice() == bytes => "vrf:ok",
+        _ => "vrf:BAD",
+    }
+}
+
+fn show_lookup(inst: &Inst, rt: &tokio::runtime::Runtime, u: &AkdLabel, p: &LookupProof) -> String {
+    let mv = if p.version == 0 { 0 } else { 1u64 << (63 - p.version.leading_zeros()) };
+    format!(
+        "LK[{}|{}|{}|{}|{}|{}|{}|{}|{}|{}]",
+        p.epoch,
+        hex_or_dash(&p.value.0),
+        p.version,
+        vrf_ok(inst, rt, &p.existence_vrf_proof, u, VersionFreshness::Fresh, p.version),
+        show_membership(&p.existence_proof),
+        vrf_ok(inst, rt, &p.marker_vrf_proof, u, VersionFreshness::Fresh, mv),
+        show_membership(&p.marker_proof),
+        vrf_ok(inst, rt, &p.freshness_vrf_proof, u, VersionFreshness::Stale, p.version),
+        show_nonmembership(&p.freshness_proof),
+        hex32(&p.commitment_nonce)
+    )
+}
+
+fn show_update(inst: &Inst, rt: &tokio::runtime::Runtime, u: &AkdLabel, p: &UpdateProof) -> String {
+    let pv = match &p.previous_version_vrf_proof {
+        Some(b) => vrf_ok(inst, rt, b, u, VersionFreshness::Stale, p.version.wrapping_sub(1)).to_string(),
+        None => "-".into(),
+    };
+    let pp = match &p.previous_version_proof {
+        Some(m) => show_membership(m),
+        None => "-".into(),
+    };
+    format!(
+        "UP[{}|{}|{}|{}|{}|{}|{}|{}]",
+        p.epoch,
+        hex_or_dash(&p.value.0),
+        p.version,
+        vrf_ok(inst, rt, &p.existence_vrf_proof, u, VersionFreshness::Fresh, p.version),
+        show_membership(&p.existence_proof),
+        pv,
+        pp,
+        hex32(&p.commitment_nonce)
+    )
+}
+
+fn show_history(inst: &Inst, rt: &tokio::runtime::Runtime, u: &AkdLabel, ep: u64, p: &HistoryProof) -> String {
+    // the marker versions the positions stand for (same function the verifier uses)
+    let vs: Vec<u64> = p.update_proofs.iter().map(|x| x.version).collect();
+    let (past, future) = match (vs.iter().min(), vs.iter().max()) {
+        (Some(&s), Some(&e)) if s >= 1 && e <= ep => akd_core::utils::get_marker_versions(s, e, ep),
+        _ => (vec![], vec![]),
+    };
+    let pv: Vec<String> = p
+        .past_marker_vrf_proofs
+        .iter()
+        .enumerate()
+        .map(|(i, b)| vrf_ok(inst, rt, b, u, VersionFreshness::Fresh, *past.get(i).unwrap_or(&0)).to_string())
+        .collect();
+    let fv: Vec<String> = p
+        .future_marker_vrf_proofs
+        .iter()
+        .enumerate()
+        .map(|(i, b)| vrf_ok(inst, rt, b, u, VersionFreshness::Fresh, *future.get(i).unwrap_or(&0)).to_string())
+        .collect();
+    format!(
+        "HP[{}|{}|{}|{}|{}]",
+        p.update_proofs.iter().map(|x| show_update(inst, rt, u, x)).collect::<Vec<_>>().join(" "),
+        pv.join(","),
+        p.existence_of_past_marker_proofs.iter().map(show_membership).collect::<Vec<_>>().join(" "),
+        fv.join(","),
+        p.non_existence_of_future_marker_proofs.iter().map(show_nonmembership).collect::<Vec<_>>().join(" ")
+    )
+}
+
+pub fn parse_params(s: &str) -> Option<HistoryParams> {
+    if s == "complete" {
+        return Some(HistoryParams::Complete);
+    }
+    let (a, b) = s.split_once(':')?;
+    if a == "recent" {
+        return Some(HistoryParams::MostRecent(b.parse().ok()?));
+    }
     None
+}
+
+// ---- the symbolic adversary (mirror of lean/AkdModel/Adv.lean) ----
+
+fn modify_at<T, F: FnOnce(&mut T)>(xs: &mut [T], i: usize, f: F) {
+    if let Some(x) = xs.get_mut(i) {
+        f(x)
+    }
+}
+
+pub fn apply_mem_edit(root_value: [u8; 32], p: &mut MembershipProof, tok: &str) -> Option<()> {
+    let parts: Vec<&str> = tok.split(':').collect();
+    match parts.as_slice() {
+        ["label", l] => p.label = parse_label(l)?,
+        ["hashroot"] => p.hash_val = AzksValue(root_value),
+        ["hashsib", i] => {
+            let i: usize = i.parse().ok()?;
+            if let Some(s) = p.sibling_proofs.get(i) {
+                p.hash_val = s.siblings[0].value;
+            }
+        }
+        ["hashzero"] => p.hash_val = AzksValue([0u8; 32]),
+        ["droptop", k] => {
+            let k: usize = k.parse().ok()?;
+            let k = k.min(p.sibling_proofs.len());
+            p.sibling_proofs.drain(..k);
+        }
+        ["dropbottom", k] => {
+            let k: usize = k.parse().ok()?;
+            let n = p.sibling_proofs.len().saturating_sub(k);
+            p.sibling_proofs.truncate(n);
+        }
+        ["flip", i] => {
+            let i: usize = i.parse().ok()?;
+            modify_at(&mut p.sibling_proofs, i, |s| s.direction = s.direction.other());
+        }
+        ["siblabel", i, l] => {
+            let i: usize = i.parse().ok()?;
+            let l = parse_label(l)?;
+            modify_at(&mut p.sibling_proofs, i, |s| s.siblings[0].label = l);
+        }
+        ["parentlabel", i, l] => {
+            let i: usize = i.parse().ok()?;
+            let l = parse_label(l)?;
+            modify_at(&mut p.sibling_proofs, i, |s| s.label = l);
+        }
+        ["swapsib", i, j] => {
+            let i: usize = i.parse().ok()?;
+            let j: usize = j.parse().ok()?;
+            if i < p.sibling_proofs.len() && j < p.sibling_proofs.len() {
+                let a = p.sibling_proofs[i].siblings[0];
+                let b = p.sibling_proofs[j].siblings[0];
+                p.sibling_proofs[i].siblings[0] = b;
+                p.sibling_proofs[j].siblings[0] = a;
+            }
+        }
+        _ => return None,
+    }
+    Some(())
+}
+
+pub fn apply_nonmem_edit(inst: &Inst, root_value: [u8; 32], p: &mut NonMembershipProof, tok: &str) -> Option<()> {
+    let parts: Vec<&str> = tok.split(':').collect();
+    match parts.as_slice() {
+        ["label", l] => p.label = parse_label(l)?,
+        ["lp", l] => p.longest_prefix = parse_label(l)?,
+        ["swapchildren"] => p.longest_prefix_children.swap(0, 1),
+        ["childlabel", i, l] => {
+            let i: usize = i.parse().ok()?;
+            let l = parse_label(l)?;
+            let i = if i == 0 { 0 } else { 1 };
+            p.longest_prefix_children[i].label = l;
+        }
+        ["childempty", i] => {
+            let i: usize = i.parse().ok()?;
+            let i = if i == 0 { 0 } else { 1 };
+            p.longest_prefix_children[i] = inst.empty_element();
+        }
+        ["mp", rest @ ..] => {
+            apply_mem_edit(root_value, &mut p.longest_prefix_membership_proof, &rest.join(":"))?;
+        }
+        _ => return None,
+    }
+    Some(())
+}
+
+pub fn step(ex: &mut Exec, toks: &[&str]) -> Option<String> {
+    let op = toks[0];
+    // split borrows: take the state out while we work
+    let mut st = ex.l1.take().unwrap_or_default();
+    let r = std::panic::catch_unwind(std::panic::AssertUnwindSafe(|| step_inner(ex, &mut st, op, toks)));
+    ex.l1 = Some(st);
+    match r {
+        Ok(r) => r,
+        Err(_) => {
+            ex.stats.bump(op, "panic");
+            Some("panic".into())
+        }
+    }
+}
+
+fn step_inner(ex: &mut Exec, st: &mut L1State, op: &str, toks: &[&str]) -> Option<String> {
+    match op {
+        "reset" if toks.len() == 2 => {
+            let inst = st.rt.block_on(Inst::new(toks[1], &st.cache_mode, st.parallelism))?;
+            st.inst = Some(inst);
+            ex.stats.bump(op, toks[1]);
+            Some("ok".into())
+        }
+        "ck" if toks.len() == 2 => {
+            let k = parse_hex(toks[1])?;
+            let real = st.rt.block_on(HardCodedAkdVRF {}.retrieve()).ok()?;
+            Some(if k == real { "ok".into() } else { "ck-mismatch".into() })
+        }
+        "vrf" if toks.len() == 5 => {
+            // an input for the model's oracle table; re-derived here so a wrong table is noticed
+            let inst = st.inst.as_ref()?;
+            let u = AkdLabel(parse_hex(toks[1])?);
+            let fresh = match toks[2] {
+                "F" => VersionFreshness::Fresh,
+                "S" => VersionFreshness::Stale,
+                _ => return None,
+            };
+            let v: u64 = toks[3].parse().ok()?;
+            let l = parse_label(toks[4])?;
+            let vrf = HardCodedAkdVRF {};
+            let real = with_cfg!(inst.cfg.as_str(), TC => st.rt.block_on(vrf.get_node_label::<TC>(&u, fresh, v))).ok()?;
+            Some(if real == l { "ok".into() } else { "vrf-mismatch".into() })
+        }
+        "dir.publish" => {
+            let inst = st.inst.as_mut()?;
+            let mut ups = vec![];
+            let mut i = 1;
+            while i + 1 < toks.len() {
+                ups.push((AkdLabel(parse_hex(toks[i])?), AkdValue(parse_hex(toks[i + 1])?)));
+                i += 2;
+            }
+            if i != toks.len() {
+                return None;
+            }
+            let r = match &inst.dir {
+                AnyDir::W(d) => st.rt.block_on(d.publish(ups)),
+                AnyDir::E(d) => st.rt.block_on(d.publish(ups)),
+            };
+            match r {
+                Ok(eh) => {
+                    inst.roots.entry(eh.0).or_insert(eh.1);
+                    ex.stats.bump(op, "ok");
+                    Some(format!("ok {} {}", eh.0, hex32(&eh.1)))
+                }
+                Err(_) => {
+                    ex.stats.bump(op, "err");
+                    Some("err".into())
+                }
+            }
+        }
+        "dir.epochhash" => {
+            let inst = st.inst.as_ref()?;
+            match st.rt.block_on(inst.epoch_hash()) {
+                Some((e, h)) => Some(format!("{} {}", e, hex32(&h))),
+                None => Some("err".into()),
+            }
+        }
+        "dir.lookup" if toks.len() == 2 => {
+            let inst = st.inst.as_ref()?;
+            let u = AkdLabel(parse_hex(toks[1])?);
+            match st.rt.block_on(inst.lookup(&u)) {
+                Some((p, e, h)) => {
+                    ex.stats.bump(op, "ok");
+                    Some(format!("{} {} {}", e, hex32(&h), show_lookup(inst, &st.rt, &u, &p)))
+                }
+                None => {
+                    ex.stats.bump(op, "err");
+                    Some("err".into())
+                }
+            }
+        }
+        "dir.history" if toks.len() == 3 => {
+            let inst = st.inst.as_ref()?;
+            let u = AkdLabel(parse_hex(toks[1])?);
+            let p = parse_params(toks[2])?;
+            match st.rt.block_on(inst.history(&u, p)) {
+                Some((hp, e, h)) => {
+                    ex.stats.bump(op, "ok");
+                    Some(format!("{} {} {}", e, hex32(&h), show_history(inst, &st.rt, &u, e, &hp)))
+                }
+                None => {
+                    ex.stats.bump(op, "err");
+                    Some("err".into())
+                }
+            }
+        }
+        "dir.audit" if toks.len() == 3 => {
+            let inst = st.inst.as_ref()?;
+            let (s, e): (u64, u64) = (toks[1].parse().ok()?, toks[2].parse().ok()?);
+            match st.rt.block_on(inst.audit(s, e)) {
+                Some(p) => {
+                    ex.stats.bump(op, "ok");
+                    Some(show_append_only(&p))
+                }
+                None => {
+                    ex.stats.bump(op, "err");
+                    Some("err".into())
+                }
+            }
+        }
+        "dir.tombstone" if toks.len() == 3 => {
+            let inst = st.inst.as_ref()?;
+            let u = AkdLabel(parse_hex(toks[1])?);
+            let e: u64 = toks[2].parse().ok()?;
+            match st.rt.block_on(inst.storage.tombstone_value_states(&u, e)) {
+                Ok(()) => Some("ok".into()),
+                Err(_) => Some("err".into()),
+            }
+        }
+        "dir.dump" => {
+            let inst = st.inst.as_ref()?;
+            Some(st.rt.block_on(inst.dump()))
+        }
+        "dir.verify.lookup" if toks.len() == 2 => {
+            let inst = st.inst.as_ref()?;
+            let u = AkdLabel(parse_hex(toks[1])?);
+            match st.rt.block_on(inst.lookup(&u)) {
+                Some((p, e, h)) => match inst.verify_lookup(h, e, &u, p) {
+                    Ok(r) => Some(format!("ok {}", show_result(&r))),
+                    Err(_) => Some("rej".into()),
+                },
+                None => Some("err".into()),
+            }
+        }
+        "dir.verify.history" | "spec.history.tomb" if toks.len() == 4 => {
+            let inst = st.inst.as_ref()?;
+            let u = AkdLabel(parse_hex(toks[1])?);
+            let hp = parse_params(toks[2])?;
+            let params = match toks[3] {
+                "allow" => HistoryVerificationParams::AllowMissingValues { history_params: hp },
+                "default" => HistoryVerificationParams::Default { history_params: hp },
+                _ => return None,
+            };
+            match st.rt.block_on(inst.history(&u, hp)) {
+                Some((p, e, h)) => match inst.verify_history(h, e, &u, p, params) {
+                    Ok(rs) => Some(format!("ok {}", rs.iter().map(show_result).collect::<Vec<_>>().join(" "))),
+                    Err(_) => Some("rej".into()),
+                },
+                None => Some("err".into()),
+            }
+        }
+        "dir.verify.audit" if toks.len() == 3 => {
+            let inst = st.inst.as_ref()?;
+            let (s, e): (u64, u64) = (toks[1].parse().ok()?, toks[2].parse().ok()?);
+            let cur = st.rt.block_on(inst.epoch_hash()).map(|x| x.0)?;
+            let valid = s < e && e <= cur;
+            match st.rt.block_on(inst.audit(s, e)) {
+                Some(p) => {
+                    let hashes: Vec<[u8; 32]> = (s..=e).filter_map(|i| inst.roots.get(&i).cloned()).collect();
+                    let complete = hashes.len() as u64 == e - s + 1;
+                    if !valid {
+                        ex.fail_tag("C04", "invalid-range-served", format!("audit({s},{e}) was served although the current epoch is {cur}"));
+                    }
+                    match st.rt.block_on(inst.verify_audit(hashes, p)) {
+                        Ok(()) => {
+                            ex.stats.bump(op, "ok");
+                            Some("ok ".into())
+                        }
+                        Err(err) => {
+                            if valid && complete {
+                                ex.fail_tag("C04", "audit-rejected", format!("audit proof for ({s},{e}) at epoch {cur} does not verify against the published root hashes: {err}"));
+                            }
+                            ex.stats.bump(op, "rej");
+                            Some("rej".into())
+                        }
+                    }
+                }
+                None => {
+                    if valid {
+                        ex.fail_tag("C04", "audit-refused", format!("audit({s},{e}) refused at epoch {cur}"));
+                    }
+                    ex.stats.bump(op, "refused");
+                    Some("err".into())
+                }
+            }
+        }
+        "azks.insert" if toks.len() >= 2 => {
+            let inst = st.inst.as_mut()?;
+            let mode = match toks[1] {
+                "dir" => InsertMode::Directory,
+                "aud" => InsertMode::Auditor,
+                _ => return None,
+            };
+            let mut els = vec![];
+            let mut i = 2;
+            while i + 1 < toks.len() {
+                let l = parse_label(toks[i])?;
+                let v = parse_hex(toks[i + 1])?;
+                if v.len() != 32 {
+                    return None;
+                }
+                let mut a = [0u8; 32];
+                a.copy_from_slice(&v);
+                els.push(AzksElement { label: l, value: AzksValue(a) });
+                i += 2;
+            }
+            if i != toks.len() {
+                return None;
+            }
+            let mut azks = st.rt.block_on(inst.azks())?;
+            let par = st.parallelism;
+            let r = with_cfg!(inst.cfg.as_str(), TC => st.rt.block_on(azks.batch_insert_nodes::<TC, _>(&inst.storage, els.clone(), mode, par)));
+            match r {
+                Ok(()) => {
+                    st.rt.block_on(inst.storage.set(DbRecord::Azks(azks.clone()))).ok()?;
+                    for e in &els {
+                        inst.leaves.entry(e.label).or_insert((e.value.0, azks.latest_epoch));
+                    }
+                    ex.stats.bump(op, "ok");
+                    Some(format!("ok {} {}", azks.latest_epoch, azks.num_nodes))
+                }
+                Err(_) => {
+                    ex.stats.bump(op, "err");
+                    Some("err".into())
+                }
+            }
+        }
+        "azks.root" => {
+            let inst = st.inst.as_ref()?;
+            match st.rt.block_on(inst.epoch_hash()) {
+                Some((_, h)) => Some(hex32(&h)),
+                None => Some("err".into()),
+            }
+        }
+        "azks.mem" if toks.len() == 2 => {
+            let inst = st.inst.as_ref()?;
+            let l = parse_label(toks[1])?;
+            match st.rt.block_on(inst.gen_mem(l)) {
+                Some(p) => Some(show_membership(&p)),
+                None => Some("err".into()),
+            }
+        }
+        "azks.nonmem" if toks.len() == 2 => {
+            let inst = st.inst.as_ref()?;
+            let l = parse_label(toks[1])?;
+            match st.rt.block_on(inst.gen_nonmem(l)) {
+                Some(p) => Some(show_nonmembership(&p)),
+                None => Some("err".into()),
+            }
+        }
+        "adv.mem" if toks.len() >= 2 => {
+            let inst = st.inst.as_ref()?;
+            let x = parse_label(toks[1])?;
+            let (_, root) = st.rt.block_on(inst.epoch_hash())?;
+            let rv = st.rt.block_on(inst.root_value())?;
+            let mut p = match st.rt.block_on(inst.gen_mem(x)) {
+                Some(p) => p,
+                None => return Some("err".into()),
+            };
+            for e in &toks[2..] {
+                apply_mem_edit(rv, &mut p, e)?;
+            }
+            let acc = inst.verify_mem(root, &p);
+            // oracle (C05): an accepted membership proof for a 256-bit label speaks about a real leaf
+            // with its true digest
+            // completeness half: the unedited proof for a member verifies
+            if !acc && toks.len() == 2 && inst.leaves.contains_key(&x) {
+                ex.fail_tag("C05", "mem-complete", format!("honest membership proof rejected for member {}", toks[1]));
+            }
+            if acc && p.label.label_len == 256 {
+                let truth = inst.leaves.get(&p.label).map(|(v, e)| {
+                    with_cfg!(inst.cfg.as_str(), TC => TC::hash_leaf_with_commitment(AzksValue(*v), *e).0)
+                });
+                if truth != Some(p.hash_val.0) {
+                    ex.fail("C05", format!("membership proof accepted for a false statement: {} {:?}", show_membership(&p), &toks[1..]));
+                }
+            }
+            ex.stats.bump(op, if acc { "acc" } else { "rej" });
+            Some(if acc { "acc".into() } else { "rej".into() })
+        }
+        "adv.nonmem" if toks.len() >= 2 => {
+            let inst = st.inst.as_ref()?;
+            let x = parse_label(toks[1])?;
+            let (_, root) = st.rt.block_on(inst.epoch_hash())?;
+            let rv = st.rt.block_on(inst.root_value())?;
+            let mut p = match st.rt.block_on(inst.gen_nonmem(x)) {
+                Some(p) => p,
+                None => return Some("err".into()),
+            };
+            for e in &toks[2..] {
+                apply_nonmem_edit(inst, rv, &mut p, e)?;
+            }
+            let acc = inst.verify_nonmem(root, &p);
+            if acc && inst.leaves.contains_key(&p.label) {
+                ex.fail("C05", format!("non-membership proof accepted for a MEMBER: {:?}", &toks[1..]));
+            }
+            // completeness half: the unedited proof for a non-member must verify
+            if !acc && toks.len() == 2 && x.label_len == 256 && !inst.leaves.contains_key(&x) {
+                let tag = if inst.leaves.is_empty() { "nonmem-complete-empty-tree" } else { "nonmem-complete" };
+                ex.fail_tag("C05", tag, format!("honest non-membership proof rejected for non-member {}", toks[1]));
+            }
+            ex.stats.bump(op, if acc { "acc" } else { "rej" });
+            Some(if acc { "acc".into() } else { "rej".into() })
+        }
+        // oracle ops: the implementation's answer here, the specification's on the model side
+        "spec.root" => {
+            let inst = st.inst.as_ref()?;
+            match st.rt.block_on(inst.epoch_hash()) {
+                Some((e, h)) => Some(format!("{} {}", e, hex32(&h))),
+                None => Some("err".into()),
+            }
+        }
+        "spec.lookup" if toks.len() == 2 => {
+            let inst = st.inst.as_ref()?;
+            let u = AkdLabel(parse_hex(toks[1])?);
+            match st.rt.block_on(inst.lookup(&u)) {
+                Some((p, e, h)) => match inst.verify_lookup(h, e, &u, p) {
+                    Ok(r) => Some(format!("ok {}", show_result(&r))),
+                    Err(_) => Some("rej".into()),
+                },
+                None => Some("none".into()),
+            }
+        }
+        "spec.history" if toks.len() == 3 => {
+            let inst = st.inst.as_ref()?;
+            let u = AkdLabel(parse_hex(toks[1])?);
+            let hp = parse_params(toks[2])?;
+            match st.rt.block_on(inst.history(&u, hp)) {
+                Some((p, e, h)) => match inst.verify_history(h, e, &u, p, HistoryVerificationParams::Default { history_params: hp }) {
+                    Ok(rs) => Some(format!("ok {}", rs.iter().map(show_result).collect::<Vec<_>>().join(" "))),
+                    Err(_) => Some("rej".into()),
+                },
+                None => Some("none".into()),
+            }
+        }
+        _ => crate::exec_l2::step(ex, st, op, toks),
+    }
 }
